@@ -312,7 +312,8 @@ theorem handleInbound_conflict (a : Agent) (now : Nat) (l : Cand) (src : Nat) (m
         (a1.seenLocalSent l.uid now,
           [.dgram l.addr r.addr { cls := 3, tid := m.tid, key := some a.localPwd, errCode := some 487 }])
       else
-        ({ a1 with controlling := !a.controlling, selStart := now, nominatedPair := none, lastNomination := none }, []) := by
+        ({ a1 with controlling := !a.controlling, selStart := now, nominatedPair := none, lastNomination := none,
+                   answeredNomination := none }, []) := by
   rw [handleInbound_request a now l src m h, hres]
   have hcr := core_resolveSource a l src m
   have ho := (resolveSource_discovered a l src m).2
